@@ -55,12 +55,12 @@ fn serialize_char_infos(file: &File, bc: Char, ec: Char, b: &mut Vec<u8>) {
         v[(c.0 - bc.0) as usize].0 = Some(dimens.clone());
     }
     for (c, tag) in &file.char_tags {
-        if let Some(slot) = v.get_mut((c.0 - bc.0) as usize) {
+        if let Some(slot) = c.0.checked_sub(bc.0).and_then(|i| v.get_mut(i as usize)) {
             slot.1 = SerializableCharTag::Valid(tag.clone());
         }
     }
     for (c, tag) in &file.unset_char_tags {
-        if let Some(slot) = v.get_mut((c.0 - bc.0) as usize) {
+        if let Some(slot) = c.0.checked_sub(bc.0).and_then(|i| v.get_mut(i as usize)) {
             slot.1 = SerializableCharTag::Unset(*tag);
         }
     }
